@@ -137,6 +137,9 @@ where
                 .collect(),
         };
 
+        #[cfg(renoir_verif)]
+        crate::verif::order_block_senders(&mut self.block_senders);
+
         if matches!(self.next_strategy, NextStrategy::OnlyOne) {
             self.block_senders
                 .iter()
